@@ -66,7 +66,7 @@ def gen_dup(g, rng):
     op = {"op": "dup", "o": src, "how": how}
     if how == "pickle":
         op["proto"] = rng.randint(2, 5)
-    return g.emit(op, scope=list(g.scope_of(i)))
+    return g.emit(op, scope=list(g.scope_of(src) or g.scope_of(i)))
 
 
 def build(seed, run, overrides=None):
@@ -101,7 +101,7 @@ def build(seed, run, overrides=None):
             if is_object_slot(v):
                 ms = g.methods_of(v)
                 if ms:
-                    m = "replace_table" if ("replace_table" in ms and rng.random() < 0.2) else g.pick_method(v, ms)
+                    m = "replace_table" if ("replace_table" in ms and rng.random() < 0.3) else g.pick_method(v, ms)
                     i = g.g_call(ri, m)
         if i is None:
             i = g.next_op()
@@ -465,7 +465,7 @@ def replay_restart(payload):
 
 # ------------------------------------------------------------------ batch / evidence
 TIERS = {
-    "quick": {"runs": 8000, "chunk": 50, "wall_cap": 900, "restart_frac": 0.3, "hashseeds": [1]},
+    "quick": {"runs": 12000, "chunk": 50, "wall_cap": 900, "restart_frac": 0.3, "hashseeds": [1]},
     "thorough": {"runs": 150000, "chunk": 200, "wall_cap": 5400, "restart_frac": 0.5, "hashseeds": [1, 4242]},
 }
 
